@@ -241,6 +241,13 @@ func (g *seqGen) c11Script(r *RNG) []Op {
 		}
 		ops = append(ops, mkOp("flush"))
 	}
+	// collectors that have already been over the files once (visited sets, resume points) must come back to them
+	if r.Bool(50) {
+		for i := 0; i < 1+r.Intn(2); i++ {
+			ops = append(ops, mkOp("pgc", "lowuse", []string{"85", "50"}[r.Intn(2)], "budget", "-1"), mkOp("flush"), mkOp("igc", "scanfree", strconv.Itoa(r.Intn(2)), "budget", "-1"))
+		}
+		ops = append(ops, mkOp("view"), mkOp("disk"))
+	}
 	// phase 2: supersede everything (all keys removed or overwritten), or leave one or two live records behind
 	keep := 0
 	if r.Bool(40) {
